@@ -354,3 +354,14 @@ def pred_truth(facts, q, classify, domain, var):
     for o in domain:
         out[o] = Evaluator(facts, classify=cl, assumption={var: o}).ev(cit.ret)
     return out, bool(hit)
+
+
+def chain_parts(src):
+    """Iterator term -> the iterators it concatenates (`a.chain(b)`), in order."""
+    s_ = versionless(src)
+    while s_[0] == 'call' and call_name(s_) == 'into_iter' and s_[2] and versionless(s_[2][0])[0] == 'call' \
+            and call_name(versionless(s_[2][0])) in ('chain', 'into_iter'):
+        s_ = versionless(s_[2][0])
+    if s_[0] == 'call' and call_name(s_) == 'chain' and len(s_[2]) == 2:
+        return chain_parts(s_[2][0]) + chain_parts(s_[2][1])
+    return [s_]
